@@ -247,6 +247,14 @@ class NPShim:
 
     absolute = abs
 
+    def signbit(self, x, *a, **k):
+        if not is_proxy(x):
+            return real_np.signbit(x, *a, **k)
+        # floats are reals in the model: no negative zero, the sign bit is x < 0
+        if x.v.kind == "complex":
+            raise TypeError("ufunc 'signbit' not supported for the input types")
+        return SBool(T.to_real(x.v.re) < 0)
+
     def all(self, x, *a, **k):
         if type(x) is SBool:
             return x
